@@ -35,6 +35,7 @@ class SurferModel:
         self.zmin, self.zmax = B.real("hdr_zmin"), B.real("hdr_zmax")
         self.rows, self.cols = B.dim("body_rows", 1), B.dim("body_cols", 1)
         self.body = B.array("body", (self.rows, self.cols))
+        self.unparsable = B.bool("body_unparsable")  # np.loadtxt may refuse the body (ragged rows, bad tokens)
 
     def file(self, name=None):
         lines = [
@@ -44,7 +45,9 @@ class SurferModel:
             SymLine(tokens=[SymToken(self.west, False), SymToken(self.east, False)]),
             SymLine(tokens=[SymToken(self.zmin, False), SymToken(self.zmax, False)]),
         ]
-        return SymFile(lines, self.body, name)
+        f = SymFile(lines, self.body, name)
+        f.unparsable = self.unparsable
+        return f
 
 
 def write_surfer(values, region, shape_hdr=None, zrange=None, fmt="%.8g", wrap_cols=None, grid_id="DSAA"):
@@ -161,7 +164,8 @@ class LoadSurfer(Contract):
         mn, mx = self._spec_minmax()
         shape_bad = or_(m.rows != m.n0, m.cols != m.n1)
         range_bad = not_(and_(np_close(mn, m.zmin), np_close(mx, m.zmax)))
-        return [(IOError, or_(shape_bad, range_bad))]
+        # a body numpy.loadtxt cannot parse is refused with its ValueError (before any integrity check)
+        return [(ValueError, m.unparsable), (IOError, and_(not_(m.unparsable), or_(shape_bad, range_bad)))]
 
     def ensures(self, a, r):
         m = self._model
@@ -224,7 +228,7 @@ class LoadSurferCase(Contract):
                 vals[0, 0] = 1.0
             region = (rng.uniform(-100, 0), rng.uniform(1, 100), rng.uniform(-50, 0), rng.uniform(1, 50))
             fmt = rng.choice(["%.10g", "%14.7e", "%.6f", "%   .9g"])
-            kind = rng.choice(["ok", "ok", "ok", "wrapped", "bad_count", "swapped_count", "bad_range", "shifted_range"])
+            kind = rng.choice(["ok", "ok", "ok", "wrapped", "bad_count", "swapped_count", "bad_range", "shifted_range", "ragged", "bad_token"])
             good = vals[vals < SENTINEL]
             zr = (float(good.min()), float(good.max()))
             hdr_shape, wrap_cols = (nn, ne), None
@@ -240,6 +244,14 @@ class LoadSurferCase(Contract):
                 span = (zr[1] - zr[0]) or 1.0
                 zr = (zr[0] + 0.1 * span, zr[1] + 0.1 * span)
             text = write_surfer(vals, region, hdr_shape, zr, fmt, wrap_cols)
+            if kind == "ragged":  # rows of unequal length: numpy.loadtxt itself raises (while the file is open)
+                lines = text.rstrip("\n").split("\n")
+                lines[-1] = lines[-1] + " 1.0"
+                text = "\n".join(lines) + "\n"
+            elif kind == "bad_token":
+                lines = text.rstrip("\n").split("\n")
+                lines[6 if len(lines) > 6 else 5] = lines[6 if len(lines) > 6 else 5].replace(lines[6 if len(lines) > 6 else 5].split()[0], "n/a", 1)
+                text = "\n".join(lines) + "\n"
             yield (ConcreteSurfer(text, vals, region, hdr_shape, zr, as_path=rng.random() < 0.5),), dict(dtype=rng.choice(["float64", "float32"]))
 
     def ensures(self, a, r):
@@ -249,7 +261,6 @@ class LoadSurferCase(Contract):
         if err is not None:
             out["refusal_is_an_ioerror_or_valueerror"] = isinstance(err, (IOError, ValueError))
             # a refusal is always acceptable for a malformed file; a WELL-FORMED one-row-per-line file must load
-            parsed = np.array([[float(t) for t in ln.split()] for ln in case.text.splitlines()[5:]], dtype=object)
             well_formed = False
             try:
                 body = np.array([[float(t) for t in ln.split()] for ln in case.text.splitlines()[5:]])
